@@ -198,6 +198,14 @@ func (f *FSM) Input(code uint8, id uint8, data []byte) {
 	f.mu.Lock()
 	defer f.mu.Unlock()
 
+	// Protocol-Reject, Echo-Request, Echo-Reply and Discard-Request are LCP
+	// codes (RFC 1661 5.7-5.9). IPCP and IPv6CP define codes 1-7 only and
+	// Code-Reject everything else (RFC 1332 section 3, RFC 5072 section 3).
+	if f.proto != ProtoLCP && code >= ProtoRej && code <= DiscReq {
+		f.rucEvent(code, id, data)
+		return
+	}
+
 	switch code {
 	case ConfReq:
 		f.rcrEvent(id, data)
